@@ -230,6 +230,19 @@ func genOpPlain(r *rand.Rand, m *model.Client, w opWeights, salt int) adapt.Op {
 					}
 				}
 				if r.Intn(5) == 0 {
+					// an index RE-KEYED under its own name in one request: delete X, then create X over other attributes
+					// (afterwards X exists, with the new key schema, and holds the items that have the new key attributes)
+					for _, ix := range t.Spec.Indexes {
+						if !ix.Local {
+							re := adapt.IndexSpec{Name: ix.Name, Hash: "s", Range: "g"}
+							if ix.Hash == "s" {
+								re = adapt.IndexSpec{Name: ix.Name, Hash: "g"}
+							}
+							return adapt.Op{Kind: adapt.OpUpdateTable, Table: name, Chg: []adapt.IndexChange{{Delete: ix.Name}, {Create: &re}}}
+						}
+					}
+				}
+				if r.Intn(5) == 0 {
 					return adapt.Op{Kind: adapt.OpUpdateTable, Table: name, Chg: []adapt.IndexChange{{Update: mon.Pick(r, []string{"gsi1", "gsi2", "gsi3", "nosuch"})}}}
 				}
 				if len(t.Spec.Indexes) > 0 && r.Intn(8) == 0 {
